@@ -262,7 +262,21 @@ func c08Direct(r *eng.Run) {
 	h := ControlHandlerFor(side, src, dst, disable)
 	r.Note("C08 ControlHandler.Handle side=%d disableSrcCiphering=%v frame=%s payload=%x seg=%d", side, disable, frameStr(f), head(f.Payload, 16), src.SegMode)
 	r.Res.Nontrivial = true
-	err := h.Handle(hdrOf(f))
+	var err error
+	if r.T.Bool(sim.LEntry) {
+		err = h.Handle(hdrOf(f))
+	} else {
+		// The exported per-opcode handlers, called directly.
+		switch f.Op {
+		case ref.OpPing:
+			err = h.HandlePing(hdrOf(f))
+		case ref.OpPong:
+			err = h.HandlePong(hdrOf(f))
+		default:
+			err = h.HandleClose(hdrOf(f))
+		}
+		r.Probe("per_opcode_handler_called_directly")
+	}
 	e := expectCtrl(f.Op, f.Payload)
 	what := fmt.Sprintf("Handle(%s) side=%d", frameStr(f), side)
 	checkReplies(r, what, side, dst.Out, []ctrlExp{e})
